@@ -300,9 +300,6 @@ class Run:
             fo = self.fn_out[j]
             if fo is not None and fo[0] == kind and fo[1] is obj:
                 return f"ret:{kind}{j}:p{int(bool(self.pend[i]))}"
-        if kind == "v" and any(fo is not None and fo[0] == "v" and fo[1] == obj and j == i
-                               for j, fo in enumerate(self.fn_out)):
-            return f"ret:v{i}:p{int(bool(self.pend[i]))}"
         if kind == "e" and isinstance(obj, CANCELLED):
             return "cancelled"
         return f"other:{kind}:{type(obj).__name__}"
@@ -513,7 +510,7 @@ def oracle(r: Run) -> str | None:
         elif kind in ("cb_sync", "cb_async"):
             if not rec[3]:
                 return f"from_thread.{'run_sync' if kind == 'cb_sync' else 'run'} in call {rec[2]} returned {rec[4]!r}"
-        elif kind == "cb_async_not_cancelled":
+        elif kind == "cb_async_not_cancelled" and not case["calls"][rec[2]]["ab"]:
             return (f"coroutine started by from_thread.run from call {rec[2]}'s thread was not interrupted "
                     f"although the host scope is cancelled")
         elif kind == "obs":
